@@ -40,7 +40,7 @@ class Transition:
 
 class Bfs:
     def __init__(self, ctx, alphabet, max_depth, on_transition, tail=(), tick_limit=200000, crosscheck=1,
-                 norm=None, batch=16, timeout=30, max_states=None):
+                 norm=None, batch=16, timeout=30, max_states=None, chunk=6000):
         """alphabet: list of (label, request_line); tail: list of (label, request_line) probes appended to every job
         (observed, not part of the state). on_transition(t) -> truthy when the successor must NOT be extended (dead)."""
         self.ctx, self.alpha, self.max_depth, self.cb = ctx, list(alphabet), max_depth, on_transition
@@ -48,6 +48,7 @@ class Bfs:
         self.tick_limit, self.crosscheck, self.batch, self.timeout = tick_limit, crosscheck, batch, timeout
         self.norm = norm or (lambda texts: list(texts))
         self.max_states = max_states
+        self.chunk = chunk          # jobs per pool.map call (bounds memory: every result carries canon strings)
         self.INIT = "<initial>"
         self.seen = {self.INIT: ()}        # canon hash -> representative history (tuple of alphabet indices)
         self.canon_of = {(): "<fresh Env, nothing requested yet>"}   # representative history -> canon text
@@ -96,49 +97,55 @@ class Bfs:
             if isinstance(r, dict) and "timeout" in r:
                 res[i] = self.ctx.pool.one(jobs[i], timeout=self.timeout * 10)
 
+    def _level_chunk(self, work, nxt, last_level):
+        jobs = [self._job(hist, ev) for hist, ev in work]
+        res = self.ctx.pool.map(jobs, batch=self.batch, timeout=self.timeout)
+        self._rerun_timeouts(jobs, res)
+        self.transitions += len(jobs)
+        for (hist, ev), r in zip(work, res):
+            n = len(hist)
+            t = self._mk(hist, ev, r)
+            if t.crash is None and t.timeout is None:
+                if "responses" not in r:
+                    raise Machinery(f"session job returned no responses: {str(r)[:300]}")
+                p = t.panic
+                if p is not None and p["request"] < n:
+                    raise Machinery(f"non-deterministic replay: prefix of {t.labels} panicked at request {p['request']} "
+                                    "although the same prefix did not panic when first executed")
+                if self._obs_hash(r, n) != self.prefix_obs[hist]:
+                    raise Machinery(f"non-deterministic replay: responses/canon of the prefix {self.labels(hist)} differ between two executions")
+            dead = self.cb(t)
+            key_before = h(self.canon_of[hist]) if hist else self.INIT
+            if t.crash is not None or t.timeout is not None or (t.panic is not None and t.panic["request"] <= n) or t.canon_after is None:
+                self.succ.setdefault(key_before, {})[ev] = ("<dead>", "<dead>")
+                self.dead += 1
+                continue
+            k = h(t.canon_after)
+            self.succ.setdefault(key_before, {})[ev] = (h(json.dumps(self.norm(t.responses))), k)
+            if dead:
+                self.dead += 1
+                continue
+            new_hist = hist + (ev,)
+            if k not in self.seen:
+                self.seen[k] = new_hist
+                if not last_level:      # states found at the last level are never expanded: keep only their hash
+                    self.canon_of[new_hist] = t.canon_after
+                    self.prefix_obs[new_hist] = self._obs_hash(r, n + 1)
+                nxt.append(new_hist)
+            else:
+                self.merged += 1
+                a = self.alts.setdefault(k, [])
+                if len(a) < self.crosscheck and len(new_hist) < self.max_depth and new_hist != self.seen[k]:
+                    a.append(new_hist)
+
     def run(self):
         frontier = [()]
         for depth in range(1, self.max_depth + 1):
-            work = [(hist, ev) for hist in frontier for ev in range(len(self.alpha))]
-            jobs = [self._job(hist, ev) for hist, ev in work]
-            res = self.ctx.pool.map(jobs, batch=self.batch, timeout=self.timeout)
-            self._rerun_timeouts(jobs, res)
-            self.transitions += len(jobs)
+            all_work = [(hist, ev) for hist in frontier for ev in range(len(self.alpha))]
             nxt = []
-            for (hist, ev), r in zip(work, res):
-                n = len(hist)
-                t = self._mk(hist, ev, r)
-                if t.crash is None and t.timeout is None:
-                    if "responses" not in r:
-                        raise Machinery(f"session job returned no responses: {str(r)[:300]}")
-                    p = t.panic
-                    if p is not None and p["request"] < n:
-                        raise Machinery(f"non-deterministic replay: prefix of {t.labels} panicked at request {p['request']} "
-                                        "although the same prefix did not panic when first executed")
-                    if self._obs_hash(r, n) != self.prefix_obs[hist]:
-                        raise Machinery(f"non-deterministic replay: responses/canon of the prefix {self.labels(hist)} differ between two executions")
-                dead = self.cb(t)
-                key_before = h(self.canon_of[hist]) if hist else self.INIT
-                if t.crash is not None or t.timeout is not None or (t.panic is not None and t.panic["request"] <= n) or t.canon_after is None:
-                    self.succ.setdefault(key_before, {})[ev] = ("<dead>", "<dead>")
-                    self.dead += 1
-                    continue
-                k = h(t.canon_after)
-                self.succ.setdefault(key_before, {})[ev] = (h(json.dumps(self.norm(t.responses))), k)
-                if dead:
-                    self.dead += 1
-                    continue
-                new_hist = hist + (ev,)
-                if k not in self.seen:
-                    self.seen[k] = new_hist
-                    self.canon_of[new_hist] = t.canon_after
-                    self.prefix_obs[new_hist] = self._obs_hash(r, n + 1)
-                    nxt.append(new_hist)
-                else:
-                    self.merged += 1
-                    a = self.alts.setdefault(k, [])
-                    if len(a) < self.crosscheck and len(new_hist) < self.max_depth and new_hist != self.seen[k]:
-                        a.append(new_hist)
+            last_level = depth == self.max_depth
+            for lo in range(0, len(all_work), self.chunk):
+                self._level_chunk(all_work[lo:lo + self.chunk], nxt, last_level)
             self.per_depth.append(len(nxt))
             self.depth_done = depth
             frontier = nxt
@@ -165,6 +172,11 @@ class Bfs:
                         work.append((k, a, ev))
         if not work:
             return
+        all_work = work
+        for lo in range(0, len(all_work), self.chunk):
+            self._crosscheck_chunk(all_work[lo:lo + self.chunk])
+
+    def _crosscheck_chunk(self, work):
         jobs = [{"op": "session", "requests": [self.alpha[i][1] for i in a] + [self.alpha[ev][1]], "canon": True,
                  "tick_limit": self.tick_limit} for _, a, ev in work]
         res = self.ctx.pool.map(jobs, batch=self.batch, timeout=self.timeout)
